@@ -29,6 +29,8 @@ pub fn check(tier: Tier) -> Check {
         Part::new("C01/fragmentation-uniform", json!({}), 0, 60),
         // the second transmission of a publish (session resume, hook H1) carries the caller's values too
         Part::new("C01/resume", json!({"depth": 3, "expiry": 1000, "secs_ago": 10, "rich": true}), 0, 60),
+        // longer histories (four publishes in flight, acknowledged out of order): "in submission order"
+        Part::new("C01/resume", json!({"depth": tier.pick(5, 6), "expiry": 1000, "secs_ago": 10}), 0, tier.pick(40, 300)),
         // the re-sent packets under every way the transport may take them (a write half that gathers
         // vectored writes: a partial write may end inside a later packet)
         Part::new("C01/resume", json!({"depth": 3, "expiry": 1000, "secs_ago": 10, "rich": true, "wmode": "explore"}), 2, tier.pick(40, 300)),
